@@ -11,10 +11,13 @@ pub mod src;
 pub use src::*;
 
 pub mod c07_win;
+pub mod c18_regs;
+pub mod c18_gen;
 
 /// (name, native entry) table used by the replay binary.
 pub fn registry() -> Vec<(&'static str, fn(&mut TapeSrc))> {
     let mut v: Vec<(&'static str, fn(&mut TapeSrc))> = Vec::new();
     c07_win::register(&mut v);
+    c18_gen::register(&mut v);
     v
 }
